@@ -339,6 +339,14 @@ def r14_3(ctx):
               f"on err > 1 the step-size factor ranges over {f_rej}: a rejected step is not guaranteed to shrink strictly "
               f"(and stay positive), so repeated rejection need not reach dt_min", f"factor in {f_rej} subset (0, 1)",
               facts={"factor": repr(f_rej)})
+    # "clamped growth/shrink factors": the shrink factor of a rejected step is bounded away from zero.  Without the floor
+    # one rejection with a large error estimate takes the proposal from far above dt_min to below it in a single jump; the
+    # proposal is clamped to dt_min, the accept test sees "the controller has reached dt_min", and the trial -- far longer
+    # than dt_min, with an error far above 1 -- is accepted without ever being retried smaller
+    rep.check(f_rej.lo > 0, "R14.3", astq.loc(fn), f"{fn.key}::R14.3::reject-bounded",
+              f"on err > 1 the step-size factor ranges over {f_rej}: it is not bounded away from 0, so a single rejection with "
+              f"a large error estimate drops the proposal below dt_min and the (long, inaccurate) trial is accepted without a "
+              f"retry", f"factor >= {f_rej.lo} > 0", facts={"factor": repr(f_rej)})
     rep.check(f_acc.ge(1.0) and f_acc.hi < INF, "R14.3", astq.loc(fn), f"{fn.key}::R14.3::accept-bounded",
               f"on err <= 1 the step-size factor ranges over {f_acc}: must be >= 1 and bounded",
               f"factor in {f_acc}", facts={"factor": repr(f_acc)})
